@@ -1,11 +1,17 @@
 import S3V.Model.FsStore
+import S3V.Model.FsStoreAbs
+import S3V.Spec.Store
 import S3V.Crypto.All
 /-!
 Driver for component `fs` (C18). One case line = one history:
 `fs \t id \t mode \t op₁ … opₙ \t | \t env.<dirlen> \t resp₁ … respₙ` (syntax: see `harness/src/bin/h_fs.rs`).
-The history is replayed on the model (`S3V.FsStore.step`).
+The history is replayed on the model (`S3V.FsStore.step`; DISAGREE when a step's answer differs from the real
+one) and on the abstract store (`S3V.StoreSpec.step`; SPECFAIL when the real answer differs from the store's).
+After a step the store disagrees with, the judging store is resynchronised from the model state (`abs`), so
+one deviation is counted once. A history gets the class of its highest-priority deviation (unexpected
+classes first, pervasive ones last); the detail column lists every deviation with its step.
 -/
-open S3V S3V.FsStore
+open S3V S3V.FsStore S3V.StoreSpec
 
 namespace FsDrv
 
@@ -192,13 +198,253 @@ def opName : Op → String
   | .uploadPartCopy .. => "mpcp" | .listParts .. => "mpl" | .completeMultipartUpload .. => "mpx"
   | .abortMultipartUpload .. => "mpa"
 
+
+/-! ## classification of a deviation (by the shape of the request and of the history so far) -/
+
+def tag : Resp → String
+  | .err e => e.name
+  | .panic => "PANIC"
+  | .unmodelled => "UNMODELLED"
+  | _ => "ok"
+
+def canonicalKey (k : Bytes) : Bool :=
+  match keyPath k with
+  | some p => joinWith [slash] p = k
+  | none => true
+
+def opKeys : Op → List Bytes
+  | .putObject _ k .. => [k] | .getObject _ k _ => [k] | .headObject _ k => [k] | .deleteObject _ k => [k]
+  | .deleteObjects _ ks => ks | .copyObject _ sk _ dk => [sk, dk]
+  | .createMultipartUpload _ _ k _ => [k] | .uploadPart _ _ k .. => [k]
+  | .uploadPartCopy _ _ k _ _ _ sk _ => [k, sk] | .listParts _ _ k _ => [k]
+  | .completeMultipartUpload _ _ k .. => [k] | .abortMultipartUpload _ _ k _ => [k]
+  | _ => []
+
+def opBucket : Op → Bytes
+  | .createBucket b => b | .deleteBucket b => b | .headBucket b => b | .getBucketLocation b => b
+  | .listBuckets => [] | .putObject b .. => b | .getObject b .. => b | .headObject b _ => b
+  | .deleteObject b _ => b | .deleteObjects b _ => b | .copyObject _ _ db _ => db
+  | .listObjectsV2 b .. => b | .listObjects b .. => b | .createMultipartUpload _ b .. => b
+  | .uploadPart _ b .. => b | .uploadPartCopy _ b .. => b | .listParts _ b .. => b
+  | .completeMultipartUpload _ b .. => b | .abortMultipartUpload _ b .. => b
+
+def opUpload : Op → Option UploadRef
+  | .uploadPart _ _ _ u .. => some u | .uploadPartCopy _ _ _ u .. => some u | .listParts _ _ _ u => some u
+  | .completeMultipartUpload _ _ _ u _ => some u | .abortMultipartUpload _ _ _ u => some u
+  | _ => none
+
+/-- divergences between the backend's state and the store that no answer has shown yet, with their cause -/
+structure Taints where
+  obj : List ((Bytes × Bytes) × String) := []
+  up : List (Nat × String) := []
+
+/-- (bucket, key) pairs a request reads or writes -/
+def opObjects : Op → List (Bytes × Bytes)
+  | .putObject b k .. => [(b, k)] | .getObject b k _ => [(b, k)] | .headObject b k => [(b, k)]
+  | .deleteObject b k => [(b, k)] | .deleteObjects b ks => ks.map fun k => (b, k)
+  | .copyObject sb sk db dk => [(sb, sk), (db, dk)]
+  | .uploadPartCopy _ _ _ _ _ sb sk _ => [(sb, sk)]
+  | .completeMultipartUpload _ b k .. => [(b, k)]
+  | _ => []
+
+def taintFor (tn : Taints) (op : Op) : Option String :=
+  match op with
+  | .listObjectsV2 b .. => (tn.obj.find? fun e => e.1.1 = b).map (·.2)
+  | .listObjects b .. => (tn.obj.find? fun e => e.1.1 = b).map (·.2)
+  | .deleteBucket b => (tn.obj.find? fun e => e.1.1 = b).map (·.2)
+  | _ => (opObjects op).findSome? fun bk => alLookup bk tn.obj
+
+def hasSub (d s : Bytes) : Bool := (findSub d s).isSome
+
+/-- fall-back naming by the shape of the keys involved -/
+def shapeClass (st : State) (sp : Store) (op : Op) : Option String :=
+  let ks := (opKeys op).filter keyOk
+  let bucketKeys := ((sp.bucket (opBucket op)).getD []).map (·.1)
+  let onDir := (opObjects op).any fun (b, k) => match objPath b k with
+    | .ok (bd, p) => st.node bd p = some .dir
+    | .error _ => false
+  if ks.any endsWithSlash then some "fs:directory-key"
+  else if ks.any (fun k => !canonicalKey k) then some "fs:key-normalised"
+  else if onDir then some "fs:leftover-directory"
+  else if bucketKeys.any endsWithSlash then some "fs:directory-key"
+  else if bucketKeys.any (fun k => !canonicalKey k) then some "fs:key-normalised"
+  else none
+
+def internalClass (st : State) (sp : Store) (op : Op) (b k : Bytes) : String :=
+  if sideTooLong b k false then "fs:long-key-internal-error"
+  else match alLookup (b, k) st.metas with
+    | some .corrupt => "fs:copy-onto-itself-destroys-object"
+    | _ => (shapeClass st sp op).getD "fs:internal-error"
+
+/-- (priority, class) of the deviation `expected ≠ got` at `op`; `st`, `sp` are the states before the step -/
+def classify (st : State) (sp : Store) (tn : Taints) (op : Op) (exp got : Resp) : Nat × String :=
+  let generic : Nat × String := (9, s!"fs:{opName op}:{tag exp}->{tag got}")
+  let shapeOr (d : Nat × String) : Nat × String := match taintFor tn op with
+    | some c => (5, c)
+    | none => match shapeClass st sp op with
+      | some c => (5, c)
+      | none => d
+  let uploadRule : Option (Nat × String) :=
+    match opUpload op with
+    | none => none
+    | some u =>
+      match exp with
+      | .err .NoSuchUpload =>
+        let known := match u with
+          | some id => (alLookup id sp.uploads).isSome
+          | none => false
+        if known then some (5, "fs:upload-not-bound-to-key")
+        else match got with
+          | .parts _ => some (2, "fs:list-parts-unknown-upload")
+          | _ => some (2, "fs:unknown-upload-code")
+      | _ =>
+        match u with
+        | some id => match alLookup id tn.up with
+          | some c => if (alLookup id st.uploads).isNone then some (5, c) else none
+          | none => none
+        | none => none
+  match uploadRule with
+  | some r => r
+  | none =>
+  match op, exp, got with
+  | _, _, .panic => (6, "fs:suffix-range-huge-panics")
+  -- buckets
+  | .deleteBucket _, .err .BucketNotEmpty, .ok => (5, "fs:delete-nonempty-bucket")
+  -- put
+  | .putObject .., .err .NoSuchBucket, _ => (5, "fs:put-into-missing-bucket")
+  | .putObject b k .., _, .err .InternalError => (5, internalClass st sp op b k)
+  | .putObject .., _, _ => shapeOr generic
+  -- get
+  | .getObject .., .err .NoSuchBucket, .err .NoSuchKey => (2, "fs:missing-bucket-reported-as-missing-key")
+  | .getObject _ _ (some (.suffix _)), _, .err .InternalError => (5, "fs:suffix-range-longer-than-object")
+  | .getObject b k _, _, .err .InternalError => (5, internalClass st sp op b k)
+  | .getObject b k _, .get b1 l1 r1 e1 m1 c1, .get b2 l2 r2 e2 m2 c2 =>
+    if b1 = b2 ∧ l1 = l2 ∧ r1 = r2 ∧ e1 = e2 then
+      if m1 ≠ m2 then (5, (alLookup (b, k) tn.obj).getD "fs:stale-metadata")
+      else if c1 ≠ c2 then (5, (alLookup (b, k) tn.obj).getD "fs:stale-checksum")
+      else generic
+    else shapeOr generic
+  | .getObject .., _, _ => shapeOr generic
+  -- head
+  | .headObject .., .err .NoSuchKey, .err .NoSuchBucket => shapeOr (2, "fs:head-missing-key-code")
+  | .headObject b k, _, .err .InternalError => (5, internalClass st sp op b k)
+  | .headObject b k, .head l1 _ m1, .head l2 none m2 =>
+    if l1 ≠ l2 then shapeOr generic
+    else if m1 ≠ m2 then (5, (alLookup (b, k) tn.obj).getD "fs:stale-metadata")
+    else (1, "fs:head-without-etag")
+  | .headObject .., _, _ => shapeOr generic
+  -- delete
+  | .deleteObject .., .ok, .err .NoSuchKey => shapeOr (2, "fs:delete-missing-key-error")
+  | .deleteObject .., .err .NoSuchBucket, .err .NoSuchKey => (2, "fs:missing-bucket-reported-as-missing-key")
+  | .deleteObject b k, _, .err .InternalError => (5, internalClass st sp op b k)
+  | .deleteObject .., _, _ => shapeOr generic
+  | .deleteObjects .., .err .NoSuchBucket, .deleted _ => (2, "fs:delete-objects-in-missing-bucket")
+  | .deleteObjects .., .deleted _, .deleted _ => shapeOr (2, "fs:delete-objects-omits-missing-keys")
+  | .deleteObjects _ ks, _, .err .InternalError =>
+    if ks.eraseDups.length ≠ ks.length then (5, "fs:delete-objects-duplicate-key")
+    else shapeOr generic
+  | .deleteObjects .., _, _ => shapeOr generic
+  -- copy
+  | .copyObject .., .err .InvalidRequest, .copied _ => (6, "fs:copy-onto-itself-destroys-object")
+  | .copyObject .., .err .NoSuchBucket, .err .NoSuchKey => (2, "fs:missing-bucket-reported-as-missing-key")
+  | .copyObject _ _ db dk, _, .err .InternalError => (5, internalClass st sp op db dk)
+  | .copyObject .., _, _ => shapeOr generic
+  -- listings
+  | .listObjectsV2 _ pfx delim _ _, .listed _ _ t cps, .listed .. =>
+    listClass pfx delim t cps
+  | .listObjects _ pfx delim _ _, .listed _ _ t cps, .listed .. =>
+    listClass pfx delim t cps
+  -- multipart
+  | .createMultipartUpload .., .err .NoSuchBucket, .created _ => (5, "fs:create-upload-not-validated")
+  | .createMultipartUpload .., .err .InvalidArgument, .created _ => (5, "fs:create-upload-not-validated")
+  | .createMultipartUpload _ b k _, _, .err .InternalError => (5, internalClass st sp op b k)
+  | .uploadPart _ _ _ _ n _, .err .InvalidArgument, _ =>
+    if n < 1 then (5, "fs:part-number-not-validated") else shapeOr generic
+  | .uploadPartCopy _ _ _ _ n .., .err .InvalidArgument, .part _ =>
+    if n < 1 ∨ n > 10000 then (5, "fs:part-number-not-validated") else (5, "fs:part-copy-range-unchecked")
+  | .uploadPartCopy .., .err .NoSuchBucket, .err .NoSuchKey => (2, "fs:missing-bucket-reported-as-missing-key")
+  | .completeMultipartUpload _ _ k .., _, .err .InvalidArgument =>
+    if !keyOk k then (5, "fs:create-upload-not-validated") else shapeOr generic
+  | .completeMultipartUpload .., .err .MalformedXML, _ => (4, "fs:complete-part-list-validation")
+  | .completeMultipartUpload .., .err .InvalidPartOrder, _ => (4, "fs:complete-part-list-validation")
+  | .completeMultipartUpload .., .err .InvalidPart, .err .InternalError => (5, "fs:complete-missing-part-internal-error")
+  | .completeMultipartUpload .., .err .InvalidPart, .err .EntityTooSmall => (4, "fs:complete-part-list-validation")
+  | .completeMultipartUpload .., .err .InvalidPart, .err .InvalidRequest => (5, "fs:complete-requires-consecutive-parts")
+  | .completeMultipartUpload .., .completed _, .err .InvalidRequest => (5, "fs:complete-requires-consecutive-parts")
+  | .completeMultipartUpload .., .err .EntityTooSmall, .err .InvalidRequest => (5, "fs:complete-requires-consecutive-parts")
+  | .completeMultipartUpload .., .err .NoSuchBucket, _ => (5, "fs:complete-into-missing-bucket")
+  | .completeMultipartUpload _ b k .., _, .err .InternalError => (5, internalClass st sp op b k)
+  | _, _, _ => shapeOr generic
+where
+  listClass (pfx delim : Option Bytes) (t : Bool) (cps : List Bytes) : Nat × String :=
+    let weird := match pfx with
+      | some p => p.head? = some slash || hasSub [slash, slash] p || hasSub [slash, 46, slash] p
+      | none => false
+    if (delim.any fun d => d ≠ [slash]) then (5, "fs:list-delimiter-rewrites-keys")
+    else if weird then (5, "fs:list-prefix-as-path")
+    else if cps ≠ [] then (5, "fs:list-delimiter-not-rolled-up")
+    else if t then (5, "fs:list-ignores-max-keys")
+    else match taintFor tn op with
+      | some c => (5, c)
+      | none => match shapeClass st sp op with
+        | some c => (5, c)
+        | none => (9, s!"fs:{opName op}:listing")
+
+/-! ## silent divergences of the state, remembered so that their later observation gets a cause -/
+
+def findObj (sp : Store) (b k : Bytes) : Option Obj := (sp.bucket b).bind (alLookup k)
+
+def allKeys (s : Store) : List (Bytes × Bytes) := s.buckets.flatMap fun (b, os) => os.map fun (k, _) => (b, k)
+
+/-- after a step both sides answered alike: record, per object, why the two states now differ -/
+def retaint (tn : Taints) (st : State) (op : Op) (spBefore spAfter absAfter : Store) : Taints :=
+  let (srcKey, mdCls, ckCls) : Option (Bytes × Bytes) × String × String := match op with
+    | .putObject b k .. =>
+      (none, if (findObj spBefore b k).isSome then "fs:stale-metadata-after-overwrite" else "fs:metadata-survives-delete",
+       "fs:stale-checksum")
+    | .copyObject sb sk _ _ => (some (sb, sk), "fs:stale-metadata-after-copy", "fs:stale-checksum-after-copy")
+    | .completeMultipartUpload .. => (none, "fs:stale-metadata-after-complete", "fs:stale-checksum-after-complete")
+    | _ => (none, "fs:stale-metadata", "fs:stale-checksum")
+  let contentCls := (shapeClass st spBefore op).getD s!"fs:{opName op}:silent-divergence"
+  let inherit (c : String) : String := match srcKey with
+    | some sk => (alLookup sk tn.obj).getD c
+    | none => c
+  -- only objects the request touches (under their raw and their normalised key) can start or stop differing
+  let touched : List (Bytes × Bytes) := (opObjects op).flatMap fun (b, k) => match keyPath k with
+    | some p => [(b, k), (b, joinWith [slash] p)]
+    | none => [(b, k)]
+  let keys : List (Bytes × Bytes) := match op with
+    | .deleteBucket _ => (allKeys spBefore ++ tn.obj.map (·.1)).eraseDups
+    | _ => touched.eraseDups
+  let tn := keys.foldl (fun (t : Taints) bk =>
+    let a := findObj absAfter bk.1 bk.2
+    let o := findObj spAfter bk.1 bk.2
+    if a = o then { t with obj := alErase bk t.obj }
+    else if (alLookup bk t.obj).isSome then t
+    else
+      let c := match a, o with
+        | some a, some o =>
+          if a.content ≠ o.content then inherit contentCls
+          else if a.md ≠ o.md then inherit mdCls
+          else inherit ckCls
+        | _, _ => inherit contentCls
+      { t with obj := alInsert bk c t.obj }) tn
+  -- uploads the store still has but the backend consumed
+  spAfter.uploads.foldl (fun (tn : Taints) (id, _) =>
+    if (alLookup id absAfter.uploads).isNone ∧ (alLookup id tn.up).isNone then
+      { tn with up := alInsert id "fs:failed-complete-consumes-upload" tn.up }
+    else tn) tn
+
 structure Acc where
   st : State := {}
+  sp : Store := {}
+  tn : Taints := {}
   k : Nat := 0
   bad : Option String := none     -- first model/implementation difference
   unm : Bool := false
   okOps : Nat := 0
   errOps : Nat := 0
+  fails : List (Nat × Nat × String) := []   -- (priority, step, class), latest first
 
 def replay (dirLen : Nat) (ops : List Op) (outs : List String) : Acc :=
   (ops.zip outs).foldl (fun (a : Acc) (op, out) =>
@@ -211,11 +457,27 @@ def replay (dirLen : Nat) (ops : List Op) (outs : List String) : Acc :=
       | _ =>
         let m := render r
         let i := implCanon op out
-        let a := { a with st := s1, k := k,
+        let a := { a with k := k,
                           okOps := a.okOps + (if m.startsWith "ok" then 1 else 0),
                           errOps := a.errOps + (if m.startsWith "ok" then 0 else 1) }
-        if m = i then a
-        else { a with bad := some s!"step {k} {opName op}: model={m} impl={i}" }) {}
+        if m ≠ i then { a with bad := some s!"step {k} {opName op}: model={m} impl={i}" }
+        else
+          -- the model's structured answer equals the implementation's: judge it against the store
+          let (p1, e) := StoreSpec.step hashes a.sp op
+          let partsUnordered := match op with
+            | .listParts .. => out.endsWith ":0"
+            | _ => false
+          if render e ≠ i then
+            let (prio, cls) := classify a.st a.sp a.tn op e r
+            { a with st := s1, sp := abs s1, tn := {},
+                     fails := (prio, k, cls ++ s!" [{opName op} expected {((render e).take 60).toString} got {(i.take 60).toString}]") :: a.fails }
+          else
+            let a := if partsUnordered then
+                { a with fails := (2, k, "fs:list-parts-unordered [parts not in ascending order]") :: a.fails }
+              else a
+            { a with st := s1, sp := p1, tn := retaint a.tn a.st op a.sp p1 (abs s1) }) {}
+
+def clsOf (s : String) : String := (s.splitOn " ").headD s
 
 def judge (fs : List String) : String :=
   match fs with
@@ -228,10 +490,16 @@ def judge (fs : List String) : String :=
         if ops.length ≠ respFields.length then badline id
         else
           let a := replay dirLen ops respFields
-          if a.unm then unmodelled id ("directory-key " ++ a.bad.getD "")
+          if a.unm then s!"{id}\tUNMODELLED\tdirectory-read\t{a.bad.getD ""}"
           else match a.bad with
             | some d => s!"{id}\tDISAGREE\t\t{d}"
-            | none => agree id (mode ++ (if a.errOps * 2 > a.okOps then "-errors" else ""))
+            | none =>
+              match a.fails.reverse with
+              | [] => agree id (mode ++ (if a.errOps * 2 > a.okOps then "-errors" else ""))
+              | f :: fsl =>
+                let best := fsl.foldl (fun (b : Nat × Nat × String) x => if x.1 > b.1 then x else b) f
+                let all := "; ".intercalate ((f :: fsl).map fun (_, k, c) => s!"{k}:{c}")
+                specfail id (clsOf best.2.2) (all.take 1500).toString
       | _, _ => badline id
     | _, _ => badline id
   | _ => badline "?"
